@@ -30,6 +30,9 @@ func iterStart[T any](x T) T { return x }
 // holdsNonNil(x): the interface value x is nil or holds a non-nil pointer (never a typed nil pointer) (ghost).
 func holdsNonNil(x any) bool { return true }
 
+// lastInt(callee): integer result (as int64) of the most recent call of that callee in the function being verified (ghost).
+func lastInt(callee string) int64 { return 0 }
+
 // lastBool(callee): boolean result of the most recent call of that callee in the function being verified (ghost).
 func lastBool(callee string) bool { return true }
 
@@ -356,6 +359,9 @@ func ifaceIs(x any, p any) bool     { return true }
 // ---- C12/C03: chunk header and DATA / I-DATA codec ----
 
 func sameSlice[T any](a, b []T) bool { return true }
+
+// suffixOf(a, b): slice a is a suffix of slice b (same backing array, same end) (ghost).
+func suffixOf[T any](a, b []T) bool { return true }
 
 //@ func chunkHeader.unmarshal
 //@   loop 1 invariant#bound i >= 0 && i <= lengthAfterValue
